@@ -7,8 +7,11 @@
 (* Flavours are the 14 positions of eko.basis_rotation.flavor_basis_pids.         *)
 EXTENDS Interp
 
-CONSTANT ContractFaithful   \* TRUE: sum_{b,k} O[a][j][b][k] f[b][k]
-                            \* FALSE: mutated design, grid indices swapped (vacuity guard)
+CONSTANTS
+  ContractFaithful,   \* TRUE: sum_{b,k} O[a][j][b][k] f[b][k]
+                      \* FALSE: mutated design, grid indices swapped (vacuity guard)
+  InputInverse        \* TRUE: flavor_reshape multiplies the input side by inputpids^-1
+                      \* FALSE: mutated design, by inputpids itself (vacuity guard)
 
 NF == 14
 Pids == <<22, -6, -5, -4, -3, -2, -1, 21, 1, 2, 3, 4, 5, 6>>
@@ -80,15 +83,17 @@ AllIntegers(fr) == \A b \in 1..Len(fr) : \A k \in 1..Len(fr[b]) : fr[b][k][2] = 
 Numerators(fr) == Eager([b \in 1..Len(fr) |-> Eager([k \in 1..Len(fr[b]) |-> fr[b][k][1]])])
 
 (* sum_{b,k} O[a][j][b][k] f[b][k]                                                *)
-Contract(O, f, n) ==
-  Eager([a \in 1..NF |-> Eager([j \in 1..n |->
-     ISumSeq([b \in 1..NF |->
+ContractN(O, f, nf, n) ==
+  Eager([a \in 1..nf |-> Eager([j \in 1..n |->
+     ISumSeq([b \in 1..nf |->
         ISumSeq([k \in 1..n |->
            (IF ContractFaithful THEN O[a][j][b][k] ELSE O[a][k][b][j]) * f[b][k]])])])])
+Contract(O, f, n) == ContractN(O, f, NF, n)
 
 (* (M v)[a][j] = sum_b M[a][b] v[b][j]                                            *)
-Rotate(M, v, n) ==
-  Eager([a \in 1..NF |-> Eager([j \in 1..n |-> ISumSeq([b \in 1..NF |-> M[a][b] * v[b][j]])])])
+RotateN(M, v, nf, n) ==
+  Eager([a \in 1..nf |-> Eager([j \in 1..n |-> ISumSeq([b \in 1..nf |-> M[a][b] * v[b][j]])])])
+Rotate(M, v, n) == RotateN(M, v, NF, n)
 
 (* re-interpolation of integer node values with a rational matrix R[t][k]        *)
 ReinterpV(R, v) ==
@@ -117,6 +122,15 @@ ContractR(Or, fr, nout, nin) ==
   Eager([a \in 1..NF |-> Eager([j \in 1..nout |->
      RSumSeq([b \in 1..NF |->
         RSumSeq([k \in 1..nin |-> RMul(Or[a][j][b][k], fr[b][k])])])])])
+
+(* transcription of flavor_reshape on integer tensors (Uinv = inverse of inputpids, *)
+(* given): "ca,ajbk,bd->cjdk"                                                      *)
+FlavorReshapeN(O, T, U, Uinv, nf, n) ==
+  LET W == IF InputInverse THEN Uinv ELSE U IN
+  Eager([c \in 1..nf |-> Eager([j \in 1..n |-> Eager([d \in 1..nf |-> Eager([k \in 1..n |->
+     ISumSeq([a \in 1..nf |-> ISumSeq([b \in 1..nf |-> T[c][a] * O[a][j][b][k] * W[b][d]])])])])])])
+C42_FlavorCommutesN(O, Onew, T, U, f, nf, n) ==
+  ContractN(Onew, RotateN(U, f, nf, n), nf, n) = RotateN(T, ContractN(O, f, nf, n), nf, n)
 
 (* flavour side: the reshaped operator O' (targetpids T, inputpids U) applied to    *)
 (* the rotated input U f gives the rotated output T (O f), for every input f        *)
